@@ -27,7 +27,7 @@ ASSUMPTIONS = [
 ]
 KINDS = ["inst", "operand", "operand", "genreg", "genreg", "indreg", "stackreg", "basereg"]
 MUTATORS = ["none", "none", "none", "prefix-ext", "prefix-ext", "other-member", "wrong-width", "non-member", "swap-names", "last-operand", "unrelated-op", "def-empty", "def-non-member", "def-wrong-width", "case-variant"]
-FLOORS = {"kind=inst": 0.08, "kind=operand": 0.12, "kind=regfam": 0.16, "mut=prefix-ext": 0.06, "expect=found": 0.25, "near-miss": 0.3, "kind=deref-field": 0.06, "kind=deref-operator-capture": 0.04, "kind=ranged-occurrence-before-definition": 0.03, "deref-operator-capture=register-family": 0.01, "kind=many-names": 0.01, "kind=names-differ-in-case-only": 0.08, "deref-keys=permuted": 0.04}
+FLOORS = {"kind=inst": 0.08, "kind=operand": 0.12, "kind=regfam": 0.16, "mut=prefix-ext": 0.06, "expect=found": 0.25, "near-miss": 0.3, "kind=deref-field": 0.06, "kind=deref-operator-capture": 0.04, "kind=ranged-occurrence-before-definition": 0.03, "kind=ranged-user-after-rebinding": 0.008, "deref-operator-capture=register-family": 0.01, "kind=many-names": 0.01, "kind=names-differ-in-case-only": 0.08, "deref-keys=permuted": 0.04}
 
 # operands with prefix / extension relatives (att, norm)
 RELATED = [
@@ -662,7 +662,41 @@ def ranged_occurrence_cases(draw):
 
     ranged = rule([{rname: {"times": {"min": lo, "max": hi}}}])
     written = [rule([rname] * n_) for n_ in range(lo, hi + 1)]
-    if draw(st.integers(0, 2)) == 0:
+    sel = draw(st.integers(0, 4))
+    if sel in (1, 2):
+        # The ranged thing is an item, a group or a $not that USES the capture (it defines nothing), again with optional items around
+        # the definition so that its position is first reached with another binding: push X ; push Y ; <run> ; ret.  Judged against
+        # the rule with the run written out 0..n times (F47: the engine's memory of failed repeat bodies survives the re-binding).
+        regs2 = ["%rax", "%rbx", "%rcx"]
+        X, Y = draw(st.sampled_from(regs2)), draw(st.sampled_from(regs2))
+        cname = draw(st.sampled_from(["&a", "&genreg", "&genreg-q"]))
+        later = cname + (".64" if cname != "&a" and draw(st.booleans()) else "")
+        run = draw(st.lists(st.sampled_from(["pop-x", "pop-x", "pop-y", "nop"]), min_size=0, max_size=4))
+        L = [["401000", "push", [X], [X]], ["401001", "push", [Y], [Y]]]
+        for q_, w_ in enumerate(run):
+            ops_ = [] if w_ == "nop" else [X if w_ == "pop-x" else Y]
+            L.append([format(0x401002 + q_, "x"), "nop" if w_ == "nop" else "pop", list(ops_), list(ops_)])
+        L.append(["401010", "ret", [], []])
+        opt = {"$or": ["push", "nop"], "times": {"min": 0, "max": 1}}
+        user = draw(st.sampled_from(["item", "or-group", "and-group", "not", "not-around"]))
+        if user == "not-around":
+            lo = max(lo, 1)
+            hi = max(hi, lo + 1)
+        unit = {"item": {"pop": [later]}, "or-group": {"$or": [{"pop": [later]}, "nop"]}, "and-group": {"$and": [{"pop": [later]}]}, "not": {"$not": [{"pop": [later]}]},
+                "not-around": {"$or": [{"pop": [later]}, "nop"]}}[user]
+
+        def rule3(mid):
+            return [dict(opt), {"push": [cname]}, dict(opt)] + mid + ["ret"]
+
+        if user == "not-around":
+            # `$not` around (the ranged group, then ret) + one more instruction for the $not to consume
+            ranged = rule3([{"$not": [{"$and": [dict(unit, times={"min": lo, "max": hi}), "ret"]}]}, {"$or": ["pop", "nop"], "times": {"min": 0, "max": 4}}])
+            written = [rule3([{"$not": [{"$or": [{"$and": [dict(unit)] * n_ + ["ret"]} for n_ in range(hi, lo - 1, -1)]}]}, {"$or": ["pop", "nop"], "times": {"min": 0, "max": 4}}])]
+        else:
+            ranged = rule3([dict(unit, times={"min": lo, "max": hi})])
+            written = [rule3([dict(unit) for _ in range(n_)]) for n_ in range(lo, hi + 1)]
+        return {"form": "ranged-occurrence", "listing": L, "pattern": ranged, "written_out": written, "k": len(run), "bounds": [lo, hi], "regfam": cname != "&a", "user": user}
+    if sel == 0:
         # optional items around the DEFINITION: the position of the later occurrence is reached with one binding first and, after
         # backtracking, with another (push X ; push Y ; mov X,tail: the capture must end up bound by the first push) - F44
         regs2 = ["%rax", "%rbx", "%rcx"]
@@ -685,7 +719,7 @@ def ranged_occurrence_cases(draw):
 
 def strategy(tier):
     return st.one_of(cases(), cases(), cases(), cases(), cases(), cases(), cases(), cases(), cases(), cases(), deref_capture_cases(), deref_capture_cases(), deref_operator_capture_cases(), deref_operator_capture_cases(), many_names_cases(),
-                     ranged_occurrence_cases())
+                     ranged_occurrence_cases(), ranged_occurrence_cases())
 
 
 def evaluate(case):
@@ -710,6 +744,8 @@ def evaluate(case):
             if r[1] is not want:
                 ev.dev("ranged-occurrence-differs-from-written-out", bounds=case["bounds"], ranged=r[1], written_out=[x[1] for x in rs], pattern=pattern)
             ev.tags = ["kind=ranged-occurrence-before-definition", "expect=found" if want else "expect=notfound"] + (["ranged-occurrence=register-family"] if case["regfam"] else [])
+            if case.get("user"):
+                ev.tags += ["kind=ranged-user-after-rebinding", "ranged-user=" + case["user"]]
             ev.nontrivial = True
         ev.sample = {"pattern": pattern, "stream": stream_sample(L)}
         return ev
